@@ -633,6 +633,34 @@ def headers(R):
          'granted Ready' % [U(c_) for c_ in loose][:1], func=f, node=(loose[0] if loose else None),
          construct='header block line split')
     need(len(splits) >= 1, 'Response.__init__: split of the header block into lines not found')
+    # a continuation line starts with SP or HTAB (RFC 7230 obs-fold): both are recognised, so that parameters folded with a
+    # tab are not dropped from the value
+    folds = []
+    for t_ in gi.live_nodes():
+        if t_.kind != 'test':
+            continue
+        e_ = t_.ast
+        chars = None
+        if isinstance(e_, ast.Call) and isinstance(e_.func, ast.Attribute) and e_.func.attr == 'startswith' and e_.args:
+            v_ = fold(R, e_.args[0], gi.ctx)
+            if isinstance(v_, (tuple, list, set, frozenset)):
+                chars = set(v_)
+            elif isinstance(v_, str):
+                chars = {v_}
+        elif isinstance(e_, ast.Compare) and len(e_.ops) == 1 and isinstance(e_.left, ast.Subscript) \
+                and isinstance(e_.left.slice, ast.Constant) and e_.left.slice.value == 0:
+            v_ = fold(R, e_.comparators[0], gi.ctx)
+            if isinstance(e_.ops[0], ast.In) and isinstance(v_, (str, tuple, list, set, frozenset)):
+                chars = set(v_)
+            elif isinstance(e_.ops[0], ast.Eq) and isinstance(v_, str):
+                chars = {v_}
+        if chars is not None and (' ' in chars or '\t' in chars):
+            folds.append((t_, chars))
+    R.ob('C10.headers', 'folded header lines start with SP or HTAB', bool(folds) and all(
+        {' ', '\t'} <= c_ for (_, c_) in folds),
+         'continuation lines are recognised by %s only: a header folded with the other white-space character loses its '
+         'continuation (negotiated extension parameters on a tab-folded line are dropped)' % [sorted(c_) for (_, c_) in folds],
+         func=f, node=(folds[0][0].ast if folds else None), construct='header folding test')
     for (n, c) in splits:
         recv_ = c.func.value
         o, on = rdi.origin(n, recv_) if isinstance(recv_, ast.Name) else (recv_, n)
